@@ -11,6 +11,7 @@ not harmless after all).  With --keep the change is stored as /verif/seeded/beni
 import argparse, hashlib, json, os, shutil, subprocess, sys, time
 
 ENV = dict(os.environ, GOFLAGS="-mod=mod", GOPROXY="off", GOSUMDB="off", GOTOOLCHAIN="local")
+VROOT = os.path.dirname(os.path.abspath(__file__))
 ALL = ["C%02d" % i for i in range(1, 21)]
 
 
@@ -60,13 +61,13 @@ def main():
         res["checks"] = {}
         for c in checks:
             t0 = time.time()
-            rc, out = sh("./check %s --tier %s" % (c, a.tier), cwd="/verif", env=dict(os.environ, VERIF_REPO=wt), timeout=3600)
+            rc, out = sh("./check %s --tier %s" % (c, a.tier), cwd=VROOT, env=dict(os.environ, VERIF_REPO=wt), timeout=3600)
             lines = [l for l in out.split("\n") if l.startswith(("VIOLATION", "OK ", "KNOWN-FINDING")) or l.startswith("  ")]
             res["checks"][c] = {"exit": rc, "alarm": rc != 0, "lines": [l[:400] for l in lines[:8]], "wall_s": round(time.time() - t0, 1)}
         res["alarms"] = [c for c, v in res["checks"].items() if v["alarm"]]
     finally:
         sh("git -C /repo worktree remove --force %s" % wt)
-        sh("rm -rf /verif/work/xvrun.%s* /verif/work/exp.%s" % (key, key))
+        sh("rm -rf %s/work/xvrun.%s* %s/work/exp.%s" % (VROOT, key, VROOT, key))
     print(json.dumps(res, indent=1))
     if a.keep:
         dst = "/verif/seeded/benign/%s-%s" % (a.prop, a.name)
